@@ -9,9 +9,11 @@
 package xfer
 
 import (
+	"bytes"
 	"context"
 	"errors"
 	"fmt"
+	"github.com/refraction-networking/uquic/verif/refwire"
 	"io"
 	"sort"
 	"strings"
@@ -25,7 +27,6 @@ import (
 	"github.com/refraction-networking/uquic/verif/sim"
 	"github.com/refraction-networking/uquic/verif/vf"
 )
-
 
 type StreamSpec struct {
 	Init     string `json:"init"` // "c" or "s": who opens and writes
@@ -266,7 +267,7 @@ func isTimeout(err error) (idle, hs bool) {
 // Options selects which oracle decides.
 type Options struct {
 	WirePrefixes []string // when non-empty: only wire-level findings with these signature prefixes are reported (the C01 oracle is not applied)
-	Unit string
+	Unit         string
 }
 
 // CheckCase runs one case in a bubble.
@@ -307,7 +308,8 @@ func runCase(c Case, u *vf.Unit, trace *any) *vf.Verdict {
 	w := sim.NewWorld(time.Duration(c.RTTms)*time.Millisecond, c.Faults, c.Loss, bos)
 	defer w.Close()
 	wire := len(curOpt.WirePrefixes) > 0
-	if wire {
+	observed := wire || vf.ReplayMode() // replays decode the wire so that a verdict can say what the packets carried
+	if observed {
 		w.Observe()
 	}
 	var aliveUntil time.Duration // set when both connections were alive at the end of the transfers
@@ -578,7 +580,22 @@ func runCase(c Case, u *vf.Unit, trace *any) *vf.Verdict {
 	// datagrams: delivered ones are unmodified (content is self-describing) and at most once
 	for k, n := range o.dgramsRx {
 		if n > 1 {
-			return vf.Bad("C01/datagram/duplicate", "application datagram %q delivered %d times", k[:min(len(k), 40)], n)
+			carriers := ""
+			if observed {
+				msg := []byte(strings.SplitN(k, "<", 2)[1])
+				for _, rec := range w.Router.Log {
+					pk, _ := rec.Pkts.([]*sim.Packet)
+					for _, p := range pk {
+						for _, f := range p.Frames {
+							if f.Name == refwire.NameDatagram && bytes.Equal(f.Data, msg) {
+								carriers += fmt.Sprintf(" [#%d %s t=%v %s pn=%d fate=%s delivered=%v]", rec.Seq, rec.Dir, rec.T, p.Kind, p.PN, rec.Fate, rec.Dlv)
+							}
+						}
+					}
+				}
+				carriers = "; packets that carried it:" + carriers
+			}
+			return vf.Bad("C01/datagram/duplicate", "application datagram %q delivered %d times%s", k[:min(len(k), 40)], n, carriers)
 		}
 		parts := strings.SplitN(k, "<", 2)
 		var from string
@@ -803,7 +820,6 @@ func longestSilence(w *sim.World, until time.Duration) time.Duration {
 	}
 	return longest
 }
-
 
 // wireClasses labels what the observer saw (coverage of the wire-level units).
 func wireClasses(w *sim.World, u *vf.Unit) {
